@@ -14,6 +14,7 @@
      read <slot> <n>                     ov_read_float(n) + data oracle        readi <slot> <bytes> <be> <word> <sgned>   ov_read
      rawseek|pcmseek|pcmseekpage <slot> <pos>      timeseek|timeseekpage <slot> <millis>      (+ "lap" suffix variants)
      halfrate <slot> <f>      crosslap <slot1> <slot2>      clear <slot>
+     errnoise <e>                        successful non-empty reads of every data source leave errno=<e> behind from now on (0: cleared)
    answers are one line per op, beginning with the op name.
 */
 #include <unistd.h>
@@ -308,7 +309,9 @@ static void c7_recrc(unsigned char *pg,long len){
 }
 static void c7_pagedamage(int kind,long i,long j,long long v){
   static c7_seg seg[4096]; int n=c7_segments(&c7_phys,seg,4096),k,np=0; int idx[4096]; buf_t out={0,0,0};
-  for(k=0;k<n;k++)if(seg[k].ispage)idx[np++]=k;
+  /* kinds 100+k: like kind k, but <i>,<j> count beginning-of-stream pages only (the pages that open a link: its Vorbis stream and any multiplexed one) */
+  if(kind>=100){ kind-=100; for(k=0;k<n;k++)if(seg[k].ispage&&seg[k].len>=27&&(c7_phys.p[seg[k].off+5]&2))idx[np++]=k; }
+  else for(k=0;k<n;k++)if(seg[k].ispage)idx[np++]=k;
   if(np==0)return;
   i=((i%np)+np)%np; j=((j%np)+np)%np;
   for(k=0;k<n;k++){
@@ -325,6 +328,7 @@ static void c7_pagedamage(int kind,long i,long j,long long v){
         if(kind==9){ pg[14]=v&255; pg[15]=(v>>8)&255; pg[16]=(v>>16)&255; pg[17]=(v>>24)&255; c7_recrc(pg,len); }
         else if(kind==10){ int b; for(b=0;b<8;b++)pg[6+b]=(unsigned char)((unsigned long long)v>>(8*b)); c7_recrc(pg,len); }
         else if(kind==11){ pg[5]^=(unsigned char)v; c7_recrc(pg,len); }
+        else if(kind==21){ long h=27+pg[26]; if(len>h+2){ pg[h+1]^=0x20; c7_recrc(pg,len); } }   /* "\001vorbis" -> "\001Vorbis": the stream this page opens is not Vorbis any more */
         else if(kind==12){ pg[18]=v&255; pg[19]=(v>>8)&255; pg[20]=(v>>16)&255; pg[21]=(v>>24)&255; c7_recrc(pg,len); }
       }
       if(kind==7&&me)buf_add(&out,src,len);
@@ -423,7 +427,7 @@ static int c07_main(int argc,char **argv){
       printf("== case %s\n",n>1?tok[1]:"?"); fflush(stdout);
       { const char *t=getenv("VERIF_CASE_TIMEOUT"); alarm(t?atoi(t):120); }   /* a call that never returns ends the process: the batch runner blames this case */
       for(i=0;i<C7_SLOTS;i++) if(c7h[i].open){ ov_clear(&c7h[i].vf); c7h[i].open=0; }
-      c7_phys.n=0; c7_nlinks=0; c7_free_ref(0); c7_free_ref(1);
+      c7_phys.n=0; c7_nlinks=0; c7_free_ref(0); c7_free_ref(1); ms_errno_noise=0;
     }else if(!strcmp(op,"link")&&n>=9){
       mk_params P; int rc; memset(&P,0,sizeof P);
       P.channels=atoi(tok[1]); P.rate=atol(tok[2]); P.quality=atof(tok[3]); P.n=atol(tok[4]); P.sig=atoi(tok[5]); P.seed=atol(tok[6]); P.pagemode=atoi(tok[7]); P.fill=atoi(tok[8]);
@@ -473,6 +477,8 @@ static int c07_main(int argc,char **argv){
       c7_table(); c7_headers();
     }else if(!strcmp(op,"ref")&&n>=2){
       int hs=atoi(tok[1])?1:0; c7_build_ref(hs); printf("ref hs=%d links=%d\n",hs,c7_refn[hs]);
+    }else if(!strcmp(op,"errnoise")&&n>=2){
+      ms_errno_noise=atoi(tok[1]); printf("errnoise %d\n",ms_errno_noise);
     }else if(!strcmp(op,"live")){
       vf_live("");
     }else if(!strcmp(op,"refpk")&&n>=2){
